@@ -216,7 +216,7 @@ def c02_pkg(rec, case):
             fn = [spec.wav[i] * u.micron for i in widx]
         try:
             with pkg.quiet():
-                ft = Fitter(fn, theta * u.arcsec, d, extinction_law=ext, av_range=(c['lo'], c['hi']), distance_range=[dmin, dmax] * u.kpc, use_memmap=c['memmap'])
+                ft = Fitter(fn, theta * u.arcsec, d, extinction_law=ext, av_range=(c['lo'], c['hi']), distance_range=([dmin, dmax] * u.kpc).to(getattr(u, c.get('range_unit', 'kpc'))), use_memmap=c['memmap'])
         except Exception as e:
             small = bool(np.any(theta * dmin * 1000. < spec.apertures[0] * (1 - 1e-9)))
             if small:
@@ -281,12 +281,13 @@ def run_c02(tier, seed):
         theta = [float(10. ** rng.uniform(1.8, 2.5 if kind != 3 else 3.0) / (dmin * 1000.)) * 10. for _ in range(n_f)]
         flags = [1] * n_f if n_f < 3 else [1, 1, int(rng.choice([1, 2, 3, 0]))]
         case = dict(seed=seed, tag='c02-pkg', pseed=int(rng.integers(1, 10 ** 6)), n_models=int(rng.integers(1, 6)), n_ap=n_ap, n_f=n_f, step=step, dmin=dmin, dmax=float(dmax),
-                    theta=theta, version=1 + t % 2, memmap=bool((t // 2) % 2), increasing=bool(t % 3), lo=0., hi=float(rng.uniform(1, 20)), flags=flags, exact=(kind == 2))
+                    theta=theta, version=1 + t % 2, memmap=bool((t // 2) % 2), increasing=bool(t % 3), lo=0., hi=float(rng.uniform(1, 20)), flags=flags, exact=(kind == 2),
+                    range_unit=('pc' if (t % 3 == 1 and kind not in (1, 2)) else 'kpc'))     # the range may be given in any length unit
         try:
             c02_pkg(rec, case)
         except Exception as e:
             rec.fail('c02_crash', 'raised %s: %s' % (type(e).__name__, e), case)
-        rec.case(key=('pkg', case['version'], n_ap, kind, case['memmap']), nontrivial=kind != 0, sample=case if t < 2 else None)
+        rec.case(key=('pkg', case['version'], n_ap, kind, case['memmap'], case['range_unit']), nontrivial=kind != 0, sample=case if t < 2 else None)
     return rec, replay
 
 
@@ -327,6 +328,13 @@ def build_fitted(d, rng, version, n_models=5, n_ap=1, n_wav=8, n_src=3, n_f=3, s
         fh.write('\n'.join(lines) + '\n')
     out = os.path.join(d, 'out.fitinfo')
     ext = pkg.simple_extinction()
+    if int(rng.integers(0, 2)):
+        # the law may be tabulated in any length / opacity unit; the file must give back the table AS GIVEN
+        from sedfitter.extinction import Extinction
+        e2_ = Extinction()
+        e2_.wav = ext.wav.to(u.AA)
+        e2_.chi = ext.chi.to(u.m ** 2 / u.kg)
+        ext = e2_
     kw = dict(extinction_law=ext, av_range=(0., 8.), distance_range=[0.5, 2.] * u.kpc, output_format=sel, output_convolved=output_convolved, n_data_min=n_data_min)
     ap = np.full(n_f, 3.) * u.arcsec
     with pkg.quiet():
@@ -399,7 +407,9 @@ def c10_one(rec, case):
             ok &= rec.expect((r.model_fluxes is not None) == bool(c['oc']), 'fluxes_only_if_requested', 'predicted fluxes present=%s but output_convolved=%s' % (r.model_fluxes is not None, c['oc']), case)
         ok &= rec.expect(meta.model_dir == d and [f.get('name', None) for f in meta.filters] == [(x if isinstance(x, str) else None) for x in fx['fnames']]
                          and close([f['aperture_arcsec'] for f in meta.filters], fx['ap'].value, 0, 0)
-                         and close(np.asarray(meta.extinction_law.get_av([1., 10.] * u.micron)), np.asarray(fx['ext'].get_av([1., 10.] * u.micron)), 1e-12), 'metadata',
+                         and close(np.asarray(meta.extinction_law.get_av([1., 10.] * u.micron)), np.asarray(fx['ext'].get_av([1., 10.] * u.micron)), 1e-12)
+                         and meta.extinction_law.wav.unit == fx['ext'].wav.unit and meta.extinction_law.chi.unit == fx['ext'].chi.unit
+                         and np.array_equal(meta.extinction_law.wav.value, fx['ext'].wav.value) and np.array_equal(meta.extinction_law.chi.value, fx['ext'].chi.value), 'metadata',
                          'shared metadata (model dir, filters, extinction law) not read back unchanged', case)
         # reading twice gives the same; three input forms are interchangeable; inputs are left unchanged
         seqs = c['calls']
@@ -673,9 +683,12 @@ def c08_one(rec, case):
         other = pkg.make_source('other', [1] * n_f, obs[::-1] * 1.3, obs[::-1] * 0.1).to_ascii()
         with open(data, 'w') as fh:
             fh.write((other + '\n' + line + '\n') if c['second'] else (line + '\n'))
+        # the planted A_V may sit exactly ON a limit of the allowed range (the rounding of the data file then decides
+        # whether the fit is clamped there: either way the planted model must be recovered)
+        av_range = {'hi': (0., av0), 'lo': (av0, 10.)}.get(c.get('limit'), (0., 10.))
         try:
             with pkg.quiet():
-                fit(data, [f.name for f in filters], np.full(n_f, theta) * u.arcsec, d, out, extinction_law=ext, av_range=(0., 10.), distance_range=dr,
+                fit(data, [f.name for f in filters], np.full(n_f, theta) * u.arcsec, d, out, extinction_law=ext, av_range=av_range, distance_range=dr,
                     output_format=('N', 3), n_data_min=2)
                 write_parameters(out, txt, select_format=('N', 1))
         except Exception as e:
@@ -704,7 +717,8 @@ def run_c08(tier, seed):
     for t in range(n):
         case = dict(seed=seed, tag='c08', pseed=int(rng.integers(1, 10 ** 6)), version=1 + t % 2, n_models=int(rng.integers(2, 7)), n_ap=1 if (t // 2) % 2 == 0 else 3,
                     m=int(rng.integers(0, 8)), av0=float(rng.uniform(0.2, 6.)), sc0=float(rng.uniform(-0.5, 0.8)), d_idx=int(rng.integers(0, 9)), rel=float(10. ** rng.uniform(-2, -0.5)),
-                    permute=bool(t % 3), wav_desc=bool(t % 2), second=bool(t % 4 < 2), mixed=bool(t % 4 == 2 or t % 8 == 0))
+                    permute=bool(t % 3), wav_desc=bool(t % 2), second=bool(t % 4 < 2), mixed=bool(t % 4 == 2 or t % 8 == 0),
+                    limit=[None, 'hi', 'lo', None, 'hi'][t % 5])
         try:
             c08_one(rec, case)
         except Exception as e:
